@@ -239,9 +239,10 @@ def run (op : String) (kv : KV) : Option String :=
     let fuel ← (← kv.get "fuel").toNat?
     let tol ← parseRat? (← kv.get "tol")
     let m : CompIn := { n, idx, vin, cin, cout, fuel, tol }
+    let hist := if m.anyShift m.fuel (List.replicate m.idx.length 1) then " path=shift-history" else ""
     match compositionBalance m with
-    | .ok o => some s!"mbc vin={showVecs o.vin} it={o.iterations} shift={showB o.shifted}"
-    | .error e => some s!"mbc err={e.toString}"
+    | .ok o => some (s!"mbc vin={showVecs o.vin} it={o.iterations} shift={showB o.shifted}" ++ hist)
+    | .error e => some (s!"mbc err={e.toString}" ++ hist)
   | _ => none
 
 def step (st : Unit) (line : String) : Unit × String :=
